@@ -7,13 +7,24 @@ use proptest::prelude::*;
 use serde::{Deserialize, Serialize};
 
 #[derive(Clone, Debug, Serialize, Deserialize)]
-pub enum Initial { Absent, Empty, Keyring { entries: usize, trailing_newline: bool, comments: bool, with_private: bool } }
+pub enum Initial { Absent, Empty, Keyring { entries: usize, trailing_newline: bool, comments: bool, with_private: bool },
+    /// a keyring of more than `kib` KiB (long comment blocks between a few entries)
+    Huge { kib: usize } }
 #[derive(Clone, Debug, Serialize, Deserialize)]
-pub struct History { pub initial: Initial, pub gens: Vec<(String, String)>, pub seed: u64, pub use_keys: bool }
+pub struct History { pub initial: Initial, pub gens: Vec<(String, String)>, pub seed: u64, pub use_keys: bool,
+    /// before generation #k (1-based) one generation is attempted with a file-size limit equal to the current size: it must fail and lose nothing
+    #[serde(default)] pub quota_before: Option<u8>,
+    /// KESTREL_NEW_PASSWORD (used only by change-pass) is set to a stale value during every generation
+    #[serde(default)] pub stale_new_password: bool }
 
 fn initial_text(i: &Initial, seed: u64) -> Option<String> {
     match i {
         Initial::Absent => None, Initial::Empty => Some(String::new()),
+        Initial::Huge { kib } => {
+            let mut s = String::from("# team keyring\n"); let filler = format!("# {}\n", "contact note ".repeat(8));
+            for e in 0..3 { let sk = crate::gen::key32(seed.wrapping_add(e), "c14-init"); s.push_str(&kspec::keyring_entry(&format!("existing-{}", e), &kspec::encode_public_key(&kspec::x25519_base(&sk)), None)); while s.len() < (e as usize + 1) * kib * 1024 / 3 + 1 { s.push_str(&filler); } s.push('\n'); }
+            Some(s)
+        }
         Initial::Keyring { entries, trailing_newline, comments, with_private } => {
             let mut s = String::new();
             if *comments { s.push_str("# my keyring\n\n"); }
@@ -40,7 +51,20 @@ pub fn check(h: &History) -> CheckResult {
     for (raw_name, pw) in &h.gens {
         let name = raw_name.trim().to_string();
         if name.contains('\n') || name.starts_with("existing-") || made.iter().any(|(n, _)| *n == name) { continue; }
-        let r = sb.cmd(&["key", "generate", "-o", "keys.txt", "--env-pass"]).env("KESTREL_PASSWORD", pw).stdin(In::Bytes(format!("{}\n", name).into_bytes())).run();
+        if h.quota_before.map(|q| q as usize == made.len() + 1).unwrap_or(false) && !prev.is_empty() {
+            // pad to a whole number of 512-byte blocks with a comment, then forbid the file to grow: the generation must fail and the file must survive
+            let mut padded = prev.clone(); if !padded.ends_with(b"\n") { padded.push(b'\n'); } while padded.len() % 512 != 0 { let room = 512 - padded.len() % 512; if room == 1 { padded.push(b'\n'); } else { padded.push(b'#'); padded.extend(std::iter::repeat(b'.').take(room - 2)); padded.push(b'\n'); } }
+            std::fs::write(&f, &padded).map_err(|e| e.to_string())?; prev = padded;
+            let mut c = sb.cmd(&["key", "generate", "-o", "keys.txt", "--env-pass"]).env("KESTREL_PASSWORD", pw).stdin(In::Bytes(b"quota-victim\n".to_vec())); c.fsize_blocks = Some((prev.len() / 512) as u64);
+            let r = c.run();
+            ensure!(r.code == Some(1), "key generate into a file that cannot grow exited {:?}: {}", r.code, r.describe());
+            let now = std::fs::read(&f).map_err(|_| "after a failed key generate (no space) the key file is GONE: every existing key was lost".to_string())?;
+            ensure!(now.len() >= prev.len() && now[..prev.len()] == prev[..], "a failed key generate (no space) did not preserve the existing contents ({} bytes before, {} after)", prev.len(), now.len());
+            if now.len() > prev.len() { std::fs::write(&f, &prev).map_err(|e| e.to_string())?; }
+        }
+        let mut gen_cmd = sb.cmd(&["key", "generate", "-o", "keys.txt", "--env-pass"]).env("KESTREL_PASSWORD", pw).stdin(In::Bytes(format!("{}\n", name).into_bytes()));
+        if h.stale_new_password { gen_cmd = gen_cmd.env("KESTREL_NEW_PASSWORD", "a stale value from an earlier change-pass"); }
+        let r = gen_cmd.run();
         if r.code != Some(0) {
             // the tool decides which names it takes; a refusal must leave the file alone (C13 covers that), and is not a C14 matter
             ensure!(r.code == Some(1), "key generate ended abnormally: {}", r.describe());
@@ -53,6 +77,7 @@ pub fn check(h: &History) -> CheckResult {
         let text = String::from_utf8(now.clone()).map_err(|_| "key file is not UTF-8".to_string())?;
         let kr = Keyring::new(&text).map_err(|e| format!("key file no longer parses as a keyring after generating {:?}: {}", name, e))?;
         for (n, _) in &made { ensure!(kr.get_key(n).is_some(), "key {:?} generated earlier is no longer in the file", n); }
+        if let Initial::Huge { .. } = &h.initial { for e in 0..3 { ensure!(kr.get_key(&format!("existing-{}", e)).is_some(), "pre-existing key existing-{} is no longer in the file", e); } }
         if let Initial::Keyring { entries, .. } = &h.initial { for e in 0..*entries { ensure!(kr.get_key(&format!("existing-{}", e)).is_some(), "pre-existing key existing-{} is no longer in the file", e); } }
         // the new key is usable with its own password and matches its PublicKey line
         let k = kr.get_key(&name).unwrap();
@@ -61,6 +86,12 @@ pub fn check(h: &History) -> CheckResult {
         let pk = Keyring::decode_public_key(&k.public_key).map_err(|e| e.to_string())?;
         ensure!(sk.to_public().map_err(|_| "to_public failed")?.as_bytes() == pk.as_bytes(), "PublicKey line of {:?} is not the public key of its private key", name);
         prev = now;
+    }
+    if matches!(h.initial, Initial::Huge { .. }) && !made.is_empty() {
+        // the tool itself must still find the newest key in the big file (it reads the keyring its own way)
+        let me = &made[made.len() - 1]; sb.write("m1.txt", b"big keyring");
+        let r = sb.cmd(&["encrypt", "m1.txt", "-t", &me.0, "-f", &me.0, "-o", "m1.ktl", "-k", "keys.txt", "--env-pass"]).env("KESTREL_PASSWORD", &me.1).run();
+        ensure!(r.code == Some(0), "the key just generated into a {} byte keyring cannot be used by the tool: {}", prev.len(), r.describe());
     }
     if h.use_keys && made.len() >= 2 {
         // every key generated so far is usable: encrypt from the first to the last and back
@@ -73,17 +104,21 @@ pub fn check(h: &History) -> CheckResult {
         ensure!(r.stderr_s().contains(&format!("File from: {}", from.0)), "decrypt did not name the generated sender key: {}", r.stderr_s());
     }
     let nontrivial = made.len() >= 2 || (made.len() == 1 && !matches!(h.initial, Initial::Absent));
-    ok(nontrivial, format!("{}gens/{}", made.len(), match &h.initial { Initial::Absent => "absent", Initial::Empty => "empty", Initial::Keyring { trailing_newline: true, .. } => "keyring", _ => "keyring-no-trailing-newline" }))
+    ok(nontrivial, format!("{}gens/{}", made.len(), match &h.initial { Initial::Absent => "absent", Initial::Empty => "empty", Initial::Keyring { trailing_newline: true, .. } => "keyring", Initial::Huge { .. } => "huge-keyring", _ => "keyring-no-trailing-newline" }))
 }
 
 pub fn strat() -> impl Strategy<Value = History> {
-    let initial = prop_oneof![2 => Just(Initial::Absent), 1 => Just(Initial::Empty), 4 => (1usize..4, any::<bool>(), any::<bool>(), any::<bool>()).prop_map(|(entries, trailing_newline, comments, with_private)| Initial::Keyring { entries, trailing_newline, comments, with_private })];
-    (initial, proptest::collection::vec((super::c17::name_strategy(), crate::gen::env_password_strategy()), 1..5), any::<u64>(), prop::bool::weighted(0.35)).prop_map(|(initial, gens, seed, use_keys)| History { initial, gens, seed, use_keys })
+    let initial = prop_oneof![4 => Just(Initial::Absent), 2 => Just(Initial::Empty), 8 => (1usize..4, any::<bool>(), any::<bool>(), any::<bool>()).prop_map(|(entries, trailing_newline, comments, with_private)| Initial::Keyring { entries, trailing_newline, comments, with_private }), 1 => prop_oneof![Just(70usize), Just(1100), Just(4200)].prop_map(|kib| Initial::Huge { kib })];
+    (initial, proptest::collection::vec((super::c17::name_strategy(), crate::gen::env_password_strategy()), 1..5), any::<u64>(), prop::bool::weighted(0.35), proptest::option::weighted(0.3, 1u8..4), any::<bool>()).prop_map(|(initial, gens, seed, use_keys, quota_before, stale_new_password)| History { initial, gens, seed, use_keys, quota_before, stale_new_password })
 }
 
 pub fn run(ctx: &Ctx) {
     set_rule("C14", "histories: initial state of F in {absent, empty, specification-written keyring of 1..3 entries with/without trailing newline, with/without comment and blank lines, with/without private keys} followed by 1..4 `kestrel key generate -o F --env-pass` runs of the binary built from the working tree, with distinct names from the domain key generation accepts and arbitrary UTF-8 passwords (incl. empty and > 64 bytes). After every step: earlier bytes are a prefix of the new bytes, the file parses with the working tree's Keyring::new, every name so far is present, the new key unlocks under its own password and matches its PublicKey line; finally encrypt/decrypt between generated keys. Non-trivial = >= 2 generations or a generation into an existing file; distinct by hash of the history");
     ctx.assume("Linux; no terminal (the name is supplied on stdin, the password through KESTREL_PASSWORD)");
     ctx.shrink_iters.store(40, std::sync::atomic::Ordering::Relaxed);
+    ctx.sse_vec("keygen_fixed_histories", "a keyring above 1 MiB; a generation that fails for lack of space between two successful ones; a stale KESTREL_NEW_PASSWORD in the environment", vec![
+        History { initial: Initial::Huge { kib: 1100 }, gens: vec![("newest".into(), "pw".into())], seed: 1, use_keys: false, quota_before: None, stale_new_password: false },
+        History { initial: Initial::Keyring { entries: 2, trailing_newline: true, comments: true, with_private: true }, gens: vec![("k1".into(), "p1".into()), ("k2".into(), "p2".into())], seed: 2, use_keys: true, quota_before: Some(2), stale_new_password: true },
+        History { initial: Initial::Absent, gens: vec![("k1".into(), "".into()), ("k2".into(), "p2".into())], seed: 3, use_keys: false, quota_before: Some(2), stale_new_password: true }], check);
     ctx.pbt("keygen_histories", ctx.n(160, 2_500), strat, check);
 }
